@@ -340,7 +340,7 @@ func (e *engine) confirmAgainstClause(o *obligation, fn *ssa.Function, terms, va
 		pins = append(pins, fmt.Sprintf("(= %s %s)", t, vals[i]))
 	}
 	// results
-	vc := e.vcCache[fn]
+	vc := o.vc
 	m := regexp.MustCompile(`@ret(\d+)$`).FindStringSubmatch(o.Name)
 	if vc == nil || m == nil {
 		return false, "not an ensures obligation"
